@@ -150,7 +150,8 @@ fn handle(mut s: TcpStream, data: &Arc<Vec<u8>>, script: &Script, index: usize, 
         }
         None => (200, data.to_vec()),
     };
-    let want_len = range.map(|(a, b)| (b.saturating_sub(a).saturating_add(1)) as usize).unwrap_or(data.len());
+    // requested length, capped (a corrupted size field can make the client ask for terabytes)
+    let want_len = range.map(|(a, b)| (b.saturating_sub(a).saturating_add(1)).min(1 << 20) as usize).unwrap_or(data.len());
     let body: Vec<u8> = match &action.body {
         Body::Range => correct,
         Body::Wrong => correct.iter().map(|b| b ^ 0x5a).collect(),
